@@ -168,8 +168,17 @@ def analyze_module(src, modname, is_init, modules):
     tree = ast.parse(src)
     kinds = {}
 
+    # names whose latest top-level event is a `del` ... through a parenthesised tuple / list target (CD-E) / of a name
+    # that an own-package `from` import had bound (CD-D); a later binding that makes the name an export clears the mark
+    deleted_nested = set()
+    deleted_reexport = set()
+
     def add(n, k):
         kinds.setdefault(n, set()).add(k)
+        if k in ("def", "async", "class", "assign", "tuple", "ann", "import_own", "self_import"):
+            # (a later foreign import / conditional binding does not make the name an export: the mark stays)
+            deleted_nested.discard(n)
+            deleted_reexport.discard(n)
     allst = None
     star_own = False
     own_star_mods = []
@@ -207,15 +216,18 @@ def analyze_module(src, modname, is_init, modules):
                     allst = ["dyn"]
         elif isinstance(st, ast.Delete):
             # `del name` at top level: whatever bound the name before is gone (a later statement may bind it again)
-            out = []
             for t in st.targets:
+                out = []
                 _target_names(t, out)
-            for n, k in out:
-                kinds.pop(n, None)
-                alias_clash.discard(n)
-                aliased_submodules.discard(n)
-                if n == "__all__":
-                    allst = None
+                for n, k in out:
+                    was = kinds.pop(n, None)
+                    if was is not None:
+                        (deleted_nested.discard if isinstance(t, ast.Name) else deleted_nested.add)(n)
+                        (deleted_reexport.add if was & {"import_own", "self_import"} else deleted_reexport.discard)(n)
+                    alias_clash.discard(n)
+                    aliased_submodules.discard(n)
+                    if n == "__all__":
+                        allst = None
         elif isinstance(st, ast.Import):
             for a in st.names:
                 add(a.asname or a.name.split(".")[0], "import_foreign")
@@ -255,7 +267,8 @@ def analyze_module(src, modname, is_init, modules):
                     allst = ["dyn"]
     return dict(kinds={n: sorted(k) for n, k in kinds.items()}, all=allst, star_own=star_own,
                 own_star_mods=own_star_mods, alias_clash=sorted(alias_clash),
-                aliased_submodules=sorted(aliased_submodules))
+                aliased_submodules=sorted(aliased_submodules),
+                deleted_nested=sorted(deleted_nested), deleted_reexport=sorted(deleted_reexport))
 
 
 REQUIRED_KINDS = {"def", "async", "class", "assign", "tuple", "ann", "import_own", "own_star"}
@@ -375,21 +388,6 @@ def _warm(t, state, tops):
 WARM_STATES = ("imported", "twice")
 
 
-def _deletes_own_reexport(src, pkg):
-    """does the module source delete (top-level `del`) a name it binds by a `from` import out of package `pkg`
-    (relative, or absolute below `pkg`)?  See exhaustive_cases."""
-    aliases, deleted = set(), set()
-    for st in ast.parse(src).body:
-        if isinstance(st, ast.ImportFrom) and (st.level or (st.module or "").split(".")[0] == pkg):
-            aliases.update(a.asname or a.name for a in st.names)
-        elif isinstance(st, ast.Delete):
-            out = []
-            for t in st.targets:
-                _target_names(t, out)
-            deleted.update(n for n, k in out)
-    return bool(aliases & deleted)
-
-
 def _cold_if_cli(case):
     """the command-line tools run in a fresh process: compare them with a library call in a fresh state"""
     if case.get("cli"):
@@ -502,10 +500,13 @@ def model_variant():
     """which code the model is asked to follow: the status of D8 / D31 in known_findings/C19.json"""
     from vcommon import load_known_findings
     st = {e["id"]: e.get("status") for e in load_known_findings("C19")}
-    v = {"d8": st.get("D8") == "fixed", "d31": st.get("D31") == "fixed", "d53": st.get("D53") == "fixed"}
-    ov = os.environ.get("VERIF_C19_VARIANT")       # dev aid for testing a fix in a scratch worktree: "d8", "d31", "d8,d31"
+    ids = {"d8": "D8", "d31": "D31", "d53": "D53", "cde": "CDE", "cdd": "CDD"}
+    v = {k: st.get(i) == "fixed" for k, i in ids.items()}
+    # dev aid for testing a fix in a scratch worktree: the complete list of variants in force, e.g.
+    # VERIF_C19_VARIANT=d8,d31,d53,cde,cdd
+    ov = os.environ.get("VERIF_C19_VARIANT")
     if ov is not None:
-        v = {"d8": "d8" in ov.split(","), "d31": "d31" in ov.split(","), "d53": "d53" in ov.split(",")}
+        v = {k: k in ov.split(",") for k in ids}
     return v
 
 
@@ -550,6 +551,13 @@ class C19(Prop):
         "Pfb.C19.Witness.d8_ann_all_fixed",
         "Pfb.C19.Witness.d31_current",
         "Pfb.C19.Witness.d31_fixed",
+        "Pfb.C19.C19_exact_fixed5",
+        "Pfb.C19.C19_deleted_reexport_not_exported",
+        "Pfb.C19.delsSeen_of_cde",
+        "Pfb.C19.Witness.cde_before",
+        "Pfb.C19.Witness.cde_fixed5",
+        "Pfb.C19.Witness.cdd_before",
+        "Pfb.C19.Witness.cdd_fixed5",
     ]
     anchors = [
         ("lib/python/pyflyby/_modules.py", "ModuleHandle.exports"),
@@ -607,7 +615,7 @@ class C19(Prop):
         "__all__ = ['a'] + ['b']", "__all__ += list(('b',))", "__all__: list = ['a']", "__all__ = ['a', 1]",
         "import os\nos.environ['K_C19'] = 'v'", "from {F} import FK\nFK.flag, b = [1], [2]",
         "from {F} import fd, i0\nfd[i0] = [1]", "from json import decoder\ndecoder.C19_FLAG: bool = True",
-        "del a", "del a, b", "a = [0]\ndel a", "def b():\n    pass\ndel b\nb = [1]",
+        "del a", "del a, b", "a = [0]\ndel a", "def b():\n    pass\ndel b\nb = [1]", "del (a, b)", "a = [0]\ndel [a]",
         "if True:\n    a = [1]", "try:\n    b = [1]\nexcept Exception:\n    b = None", "pass",
     ]
     INIT_ONLY = ["from .sub import sx", "from .sub import sy as a", "from . import sub", "from .sub import *",
@@ -633,10 +641,6 @@ class C19(Prop):
                 try:
                     compile(src, "<t>", "exec")
                 except SyntaxError:
-                    continue
-                if _deletes_own_reexport(src, u.P):
-                    # `del` of an own-package re-export: the clean tree still exports it (candidate defect CD-D,
-                    # reported, Witness.del_reexport_fixed) - not generated
                     continue
                 files = {u.P + "/__init__.py": "", u.P + "/sub.py": gen_c19.SUB_SRC, u.P + "/_compat.py": gen_c19.COMPAT_SRC,
                          u.P + "/sp/__init__.py": "spx = ['spx']\n",
@@ -1080,8 +1084,13 @@ sys.stdout.write(out.text.joined)
         if new is not None and new_imports is not None and pr.get("orig_err") is None and "same" in pr:
             if pr.get("new_err") is not None:
                 lost = self._name_of_nameerror(pr["new_err"])
-                fails.append(dict(what="program-breaks-after-replacement", err=pr["new_err"], name=lost,
-                                  why=self._why(lost, case, analyses, cpy, obs), program=case["program"], new=new))
+                f = dict(what="program-breaks-after-replacement", err=pr["new_err"], name=lost,
+                         why=self._why(lost, case, analyses, cpy, obs), program=case["program"], new=new)
+                m = re.match(r"ImportError: cannot import name '([^']+)' from '([^']+)'", pr["new_err"] or "")
+                if m and m.group(2) in analyses:
+                    f.update(cannot_import=m.group(1), cannot_import_from=m.group(2),
+                             **self._del_marks(analyses[m.group(2)], m.group(1)))
+                fails.append(f)
             else:
                 for r, s in sorted(pr["same"].items()):
                     if s in ("new-unbound", "different"):
@@ -1146,15 +1155,16 @@ sys.stdout.write(out.text.joined)
             if n.startswith("_") or "." in n:
                 fails.append(dict(what="export-private-or-dotted", target=t, name=n))
             elif not k:
-                fails.append(dict(what="export-not-bound-at-top-level", target=t, name=n))
+                fails.append(dict(what="export-not-bound-at-top-level", target=t, name=n, **self._del_marks(an, n)))
             elif k <= {"import_foreign"}:
-                fails.append(dict(what="export-merely-imported-from-elsewhere", target=t, name=n))
+                fails.append(dict(what="export-merely-imported-from-elsewhere", target=t, name=n, **self._del_marks(an, n)))
             elif "submodule" in k and k <= {"import_foreign", "submodule"}:
                 # a submodule object is neither a def/class/assigned name nor a name re-exported *from* a submodule
                 fails.append(dict(what="export-is-submodule-object", target=t, name=n,
-                                  aliased=(n in an["aliased_submodules"])))
+                                  aliased=(n in an["aliased_submodules"]), **self._del_marks(an, n)))
             if n.isidentifier() and not fi.get(n, "").startswith(("ok", "module")):
-                fails.append(dict(what="export-not-importable", target=t, name=n, cpython=fi.get(n)))
+                fails.append(dict(what="export-not-importable", target=t, name=n, cpython=fi.get(n),
+                                  **self._del_marks(an, n)))
         for n, k in sorted(kinds.items()):
             if n.startswith("_") or n in exs:
                 continue
@@ -1163,6 +1173,12 @@ sys.stdout.write(out.text.joined)
                 fails.append(dict(what="export-missing", target=t, name=n, kinds=sorted(k),
                                   alias_clash=(n in an["alias_clash"])))
         return fails
+
+    @staticmethod
+    def _del_marks(an, n):
+        """was the name's last definite top-level event a `del` through a tuple/list target / of an own re-export?"""
+        return dict(deleted_nested=bool(an and n in an["deleted_nested"]),
+                    deleted_reexport=bool(an and n in an["deleted_reexport"]))
 
     @staticmethod
     def _exports_at_rewrite(obs, t):
@@ -1430,7 +1446,25 @@ def fam_reorder_kept_star(case, f):
     return bool(w.get("kept_star_binds")) and len(w.get("binders", [])) >= 2
 
 
-C19.families = {"d8_forms": fam_d8_forms, "not_exported_by_design": fam_not_exported_by_design,
+DEL_FAILS = ("export-not-bound-at-top-level", "export-not-importable", "export-merely-imported-from-elsewhere",
+             "export-is-submodule-object", "program-breaks-after-replacement")
+
+
+def fam_del_nested(case, f):
+    """CD-E: a name deleted at top level through a parenthesised tuple / list target (`del (a, b)`, `del [c]`) and not
+    made an export again afterwards (def / class / assignment / own re-export) is still exported: it cannot be imported,
+    or is whatever a later foreign import / conditional statement bound."""
+    return f.get("what") in DEL_FAILS and bool(f.get("deleted_nested"))
+
+
+def fam_deletes_own_reexport(case, f):
+    """CD-D: a name bound by a `from` import out of the module's own package and deleted at top level afterwards
+    (not made an export again) is still exported: it cannot be imported, or is whatever a later foreign import bound."""
+    return f.get("what") in DEL_FAILS and bool(f.get("deleted_reexport"))
+
+
+C19.families = {"del_nested": fam_del_nested, "deletes_own_reexport": fam_deletes_own_reexport,
+                "d8_forms": fam_d8_forms, "not_exported_by_design": fam_not_exported_by_design,
                 "own_star": fam_own_star, "reorder_kept_star": fam_reorder_kept_star, "alias_probe": fam_alias_probe}
 
 PROP = C19()
